@@ -202,6 +202,7 @@ def c06_evidence_extra(agg: dict) -> dict:
         "simulated_time": "none - the system has no clock",
         "applications_by_kind": st.get("applications", {}),
         "law_probes": st.get("laws", {}),
+        "steps_by_kind": st.get("ops", {}),
         "representation_invariants_checked": st.get("rep_invariants", 0),
         "law_probes_where_both_sides_raised": st.get("both_raised", 0),
         "max_projective_defect_seen": st.get("max_projective_defect", 0.0),
